@@ -370,6 +370,7 @@ type Entry struct {
 	Tx          *Tx        `json:"tx,omitempty"`
 	Dir         *Directive `json:"dir,omitempty"`
 	CommentLine *string    `json:"commentline,omitempty"` // top-level ";" line (text after ';')
+	Raw         *string    `json:"raw,omitempty"`         // a top-level line written verbatim (no spans): constructs the model has no fields for
 	Blank       int        `json:"blank,omitempty"`       // blank lines after the entry
 }
 
@@ -566,6 +567,11 @@ func Render(j *Journal) *Rendered {
 			b := &lineBuf{r: r, line: line, entry: ei, post: -1}
 			b.span("topcomment", ";"+*e.CommentLine)
 			emit(b, LineInfo{"topcomment", ei, -1})
+		case e.Raw != nil:
+			b := &lineBuf{r: r, line: line, entry: ei, post: -1}
+			b.w(*e.Raw)
+			feats["raw-line"] = true
+			emit(b, LineInfo{"directive", ei, -1})
 		case e.Dir != nil:
 			renderDirective(r, e.Dir, ei, &line, emit, feats)
 		case e.Tx != nil:
